@@ -46,7 +46,7 @@ REACH = {
         "startup_loss_same_iteration_as_timeout", "numbering_restarted_checked", "clean_close_while_waiting",
         "numbering_checked_after_reset", "numbering_checked_after_startup", "second_request_judged",
         "request_after_a_timed_out_request_completed", "ncp_frame_between_rst_and_rstack", "rst_write_failed",
-        "host_frame_pending_at_reset"]
+        "host_frame_pending_at_reset", "queued_frame_numbered_from_zero"]
     for t in ("quick", "thorough")
 }
 SOFTWARE = 0x0B
@@ -113,6 +113,8 @@ def run_case(case):
 
         def feed(b, label):
             tr.append(("rx", clock(), label))
+            if label[0] == "rstack" and label[1] == SOFTWARE and case.get("pending") and hasattr(wire, "_post_reset"):
+                wire._post_reset[0] = True
             proto.data_received(b)
 
         def auto_ack(fr):
@@ -131,6 +133,9 @@ def run_case(case):
             # a DATA frame of the host is still unacknowledged when the reset is requested
             wire.on_data = None
             pend = asyncio.ensure_future(gw.send_data(b"pending"))
+            if case["pending"] == 2:
+                # ... and a second one is waiting for its turn behind it
+                pend2 = asyncio.ensure_future(gw.send_data(b"queued"))
             await vloop.settle(loop, 3)
         tr.append(("prior_done", clock()))
 
@@ -158,6 +163,9 @@ def run_case(case):
             if what == "ackrstack":
                 # the acknowledgement of the host's last pre-reset frame and the RSTACK in one read
                 return R.encode_ack((case["tx"] + 1) % 8) + R.encode_rstack(code)
+            if what == "rstack_then_acks":
+                # RSTACK; from now on the (reset) NCP acknowledges what it receives
+                return R.encode_rstack(code)
             if what == "ack":
                 return R.encode_ack(code)
             # a DATA frame of the NCP that was already on its way when the host asked for the reset
@@ -165,7 +173,9 @@ def run_case(case):
 
         async def one_round(script, loss, waiter_kind, fail=None):
             round_start = len(tr)
-            wire.on_data = auto_ack if not case.get("pending") else None
+            post_reset = [False]
+            wire._post_reset = post_reset
+            wire.on_data = auto_ack if not case.get("pending") else (lambda fr: auto_ack(fr) if post_reset[0] else None)
             if fail == "oserror":
                 wire.fail_next = True
             elif fail == "closing":
@@ -396,6 +406,22 @@ def judge_one(case, tr, info, reset_timeout):
                 bad.append(("C11/connection-lost/application-not-told", f"loss ({e[2]}) reported {len(told)} times to the application"))
             if e[2] == "close" and told:
                 bad.append(("C11/connection-lost/clean-close-reported", "a clean close was reported to the application as a loss"))
+    if case.get("pending") and out[0] == "ret":
+        # every new DATA frame written after the RSTACK - the one that was queued at the reset and the
+        # ones submitted later - is numbered 0, 1, 2, ... in the order written
+        ir = next((i for i, e in enumerate(tr) if e[0] == "rx" and e[2] == ("rstack", SOFTWARE)), None)
+        if ir is not None:
+            frms = []
+            for e in tr[ir:]:
+                if e[0] == "wr":
+                    for cancel, fr, raw in R.split_wire(e[2])[0]:
+                        if fr is not None and fr.kind == "DATA" and not fr.retx:
+                            frms.append((fr.frm, fr.payload[:12]))
+            if [f for f, _ in frms] != [k % 8 for k in range(len(frms))]:
+                bad.append(("C11/numbering/host-tx-not-restarted",
+                            f"DATA frames written after the RSTACK carry numbers {frms}, expected 0, 1, 2, ..."))
+            elif frms:
+                facts.add("queued_frame_numbered_from_zero" if case["pending"] == 2 else "numbering_checked_with_pending_frame")
     # numbering after a completed handshake
     pc = next((e for e in tr if e[0] == "post_check"), None)
     if pc is not None:
@@ -410,7 +436,7 @@ def judge_one(case, tr, info, reset_timeout):
                         datas.append(fr)
                     if fr is not None and fr.kind in ("ACK", "NAK"):
                         acks.append(fr)
-        if not datas or datas[0].frm != 0:
+        if (not datas or datas[0].frm != 0) and case.get("pending") != 2:  # (pending == 2: judged above)
             bad.append(("C11/numbering/host-tx-not-restarted", f"first host DATA after the handshake: {[d.sig() for d in datas[:1]]}"))
         if not acks or acks[0].kind != "ACK" or acks[0].ack != 1:
             bad.append(("C11/numbering/host-rx-not-restarted", f"peer DATA frmNum 0 after the handshake answered with {[a.sig() for a in acks[:1]]}"))
@@ -502,8 +528,10 @@ def gen_cases(tier, seed):
     #     the same read as the RSTACK, or right after it
     for (i, j) in (pairs if tier == "thorough" else ntx + [(1, 0), (2, 6), (6, 1)]):
         nack = (i + 1) % 8
-        cases.append({"waiter": "reset", "tx": i, "rx": j, "pending": True, "script": [("in", "ackrstack", SOFTWARE)]})
-        cases.append({"waiter": "reset", "tx": i, "rx": j, "pending": True, "script": [("in0", "ack", nack), ("in", "rstack", SOFTWARE)]})
+        cases.append({"waiter": "reset", "tx": i, "rx": j, "pending": 1, "script": [("in", "ackrstack", SOFTWARE)]})
+        cases.append({"waiter": "reset", "tx": i, "rx": j, "pending": 1, "script": [("in0", "ack", nack), ("in", "rstack", SOFTWARE)]})
+        cases.append({"waiter": "reset", "tx": i, "rx": j, "pending": 2, "script": [("in", "ackrstack", SOFTWARE)]})
+        cases.append({"waiter": "reset", "tx": i, "rx": j, "pending": 2, "script": [("in0", "ack", nack), ("in", "rstack", SOFTWARE)]})
     # F. an NCP frame that was already on its way arrives between the RST and the RSTACK (old numbering:
     #    the next expected number, or zero): whatever the host does with it, numbering restarts at the RSTACK
     for (i, j) in (pairs if tier == "thorough" else ntx + [(0, 1), (2, 0), (5, 3)]):
